@@ -14,7 +14,8 @@ EXPLANATION = (
     "removed, %-format strings, plain literals) is brace-balanced and \\left/\\right-balanced on its own, so any concatenation / "
     "formatting of balanced pieces with balanced sub-results is balanced; L2 every display_latex= and subscript= literal in the "
     "package (they are embedded verbatim) and the name templates of _process_subscript_and_names / _process_vector_names are "
-    "balanced. Meaning preservation (brackets where needed, signs, fractions) is NOT decided: it depends on SymPy predicates "
+    "balanced. L16 evaluates _print_Mul (with _extract_minus_sign and convert_args) on eight products carrying a factor -1: one sign, every "
+    "factor, a remaining sum in brackets. Meaning preservation as a whole (brackets where needed, signs, fractions) is NOT decided: it depends on SymPy predicates "
     "applied to run-time expression trees.")
 ASSUMPTIONS = ["SymPy's own LatexPrinter emits balanced output for balanced sub-results", "only the well-formedness clause is claimed"]
 TRUSTED = ["sympy.printing.latex.LatexPrinter", "python ast"]
